@@ -418,6 +418,7 @@ def cfg_c20(rng):
     p['weights'] = w(backup=25, pub=45, reopen=9)
     p['weights']['del'] = 8
     p['bk_over_reopen'] = True
+    p['p_bkhalf'] = 0.2
     return p
 
 
